@@ -494,7 +494,13 @@ def run_check(prop, tier="quick", seed=0, replay=None, selftest=False, ncases=No
 
     ctx = {"cases": cases, "outs": outs, "tier": tier, "seed": seed, "rng": rng,
            "build_ok": build_ok, "info": info}
-    extra = prop.extra_checks(ctx) if (build_ok and not replay) else []
+    extra = []
+    if build_ok and not replay:
+        try:
+            extra = prop.extra_checks(ctx)
+        except Exception as e:  # noqa
+            extra = [{"class": "extra-crashed:%s" % type(e).__name__, "what": "supporting check crashed: %r" % (e,),
+                      "payload": {"tb": traceback.format_exc()[-800:]}, "found": False}]
 
     # (e) search: evaluate the property predicate itself on every case (cheap, exact);
     #     failing verdicts are the obligation, spec violations the concrete inputs.
